@@ -23,6 +23,12 @@ pub fn family(name: &str, n: usize) -> String {
         "nested-last-argument" => format!("f => {}", (0..n).fold("1".to_owned(), |acc, _| format!("f 1 ({acc})"))),
         "nested-last-operand" => (0..n).fold("1".to_owned(), |acc, i| if i % 2 == 0 { format!("1 - ({acc})") } else { format!("1 / ({acc})") }),
         "nested-argument-error" => format!("f => x => {}", (0..n).fold("if x".to_owned(), |acc, _| format!("f ({acc})"))),
+        // let blocks of two definitions nested through lambdas inside a function that a later non-value
+        // definition uses (what the definition-order pass walks: free variables of nested groups)
+        "nested-let-lambda" => format!("f = ({} b{}); r = f 1; 0",
+            (0..n).map(|i| format!("(x{i} : int) => a{i} = x{i}; b{i} = a{i};")).collect::<Vec<_>>().join(" "), n - 1),
+        // a long chain of non-dependent arrows as a definition
+        "arrow-definition" => format!("t = {} int; 0", "int -> ".repeat(n)),
         "nested-if-condition" => (0..n).fold("true".to_owned(), |acc, _| format!("if ({acc}) then true else false")),
         "plus-chain" => vec!["1"; n].join(" + "),
         "mixed-chain" => (0..n).map(|i| ["1 *", "2 -", "3 /", "4 +"][i % 4]).collect::<Vec<_>>().join(" ") + " 5",
@@ -61,8 +67,8 @@ pub fn family(name: &str, n: usize) -> String {
     }
 }
 
-pub const FAMILIES: [&str; 23] = ["nested-parens", "unclosed-parens", "misclosed-parens", "nested-quotient-chain", "nested-difference-chain",
-    "nested-application-chain", "nested-last-argument", "nested-last-operand", "nested-argument-error", "nested-if-condition", "plus-chain", "mixed-chain", "application-chain",
+pub const FAMILIES: [&str; 25] = ["nested-parens", "unclosed-parens", "misclosed-parens", "nested-quotient-chain", "nested-difference-chain",
+    "nested-application-chain", "nested-last-argument", "nested-last-operand", "nested-argument-error", "nested-let-lambda", "arrow-definition", "nested-if-condition", "plus-chain", "mixed-chain", "application-chain",
     "definitions", "nested-if", "truncated-if", "lambda-chain", "arrow-chain", "negation-chain", "comparison-chain",
     "definitions-then-nested", "shared-dependencies", "nested-groups"];
 
